@@ -183,19 +183,25 @@ def finish(prop, tier, seed, level, cases, *, rule, monitor_counts=None, floors=
         "property_id": prop, "tier": tier, "seed": int(seed), "level": level, "coverage": coverage,
         "assumptions": assumptions or [], "wall_s": round(wall, 2), "violations": len(new_viol),
     }
-    os.makedirs(os.path.join(VERIF, "evidence"), exist_ok=True)
-    with open(os.path.join(VERIF, "evidence", prop + ".json"), "w") as f:
+    # ASIMAP_VERIF_OUT redirects evidence/replays (used only when validating the
+    # checks against deliberately broken scratch copies, so that /verif/evidence
+    # always describes a run against the real tree)
+    OUT = os.environ.get("ASIMAP_VERIF_OUT") or VERIF
+    if new_viol:
+        coverage["violation_kinds"] = Counter(str((c.get("witness") or {}).get("kind")) for c in new_viol).most_common(12)
+    os.makedirs(os.path.join(OUT, "evidence"), exist_ok=True)
+    with open(os.path.join(OUT, "evidence", prop + ".json"), "w") as f:
         json.dump(ev, f, indent=1, default=repr)
         f.write("\n")
     for m, n in sorted(known_seen.items()):
         print(f"KNOWN-FINDING: property={prop} {open_known[m]['what_fails']} [{m}; seen in {n} case(s)]")
     rc = 0
     if new_viol:
-        os.makedirs(os.path.join(VERIF, "replays"), exist_ok=True)
+        os.makedirs(os.path.join(OUT, "replays"), exist_ok=True)
         shown = set()
         for c in new_viol:
             sig = h([c.get("mechanisms"), (c.get("witness") or {}).get("kind")])
-            path = os.path.join(VERIF, "replays", f"{prop}-{h(c['spec'])}.json")
+            path = os.path.join(OUT, "replays", f"{prop}-{h(c['spec'])}.json")
             with open(path, "w") as f:
                 json.dump({"property": prop, "tier": tier, "seed": seed, "case": c}, f, indent=1, default=repr)
             if sig in shown and len(shown) >= 1 and len(new_viol) > 8:
